@@ -235,7 +235,7 @@ class Task:
         must_close = getattr(self.request, "connection_close", False)
 
         if version == "1.0":
-            if connection == "keep-alive" and not must_close:
+            if connection == "keep-alive" and not must_close and not self.close_on_finish:
                 if not content_length_header:
                     self.set_close_on_finish()
                 else:
